@@ -79,4 +79,133 @@ theorem rRun_count_spec (full : Bool) (dw t : Nat) (xs : List RIn) :
 theorem ctrNext_req0 : ctrNext 0 true false = 1 := by decide
 theorem ctrNext_resp1 : ctrNext 1 false true = 0 := by decide
 
+
+/-! ### Shared interconnect, write direction -/
+
+namespace SharedW
+variable (c : Cfg)
+
+theorem tRes_some {t : Nat} (ht : c.t = some t) (s : DState) (x : WBusIn) :
+    tRes c s x = wOut s.tm (tIn c s x) := by simp [tRes, ht]
+
+theorem next_tm {t : Nat} (ht : c.t = some t) (s : DState) (x : WBusIn) :
+    (next c s x).tm = wNext t s.tm (tIn c s x) := by simp [next, ht]
+
+/-- Port-level observation: the FSM is in WAIT and the write-channel owner has an AW or W beat that is not
+    accepted in this cycle. -/
+def ownerWaits (s : DState) (x : WBusIn) : Bool :=
+  !s.tm.respond &&
+    (((x.ms s.grant).awv && !((out c s x).toM s.grant).awr) ||
+     ((x.ms s.grant).wv && !((out c s x).toM s.grant).wr))
+
+def waits : DState → List WBusIn → List Bool
+  | _, [] => []
+  | s, x :: xs => ownerWaits c s x :: waits (next c s x) xs
+
+/-- Consecutive preceding cycles in which the owner waited (history from reset). -/
+def waited (xs : List WBusIn) : Nat := WaitTimer.streak (waits c (dInit c) xs)
+
+theorem ownerWaits_eq {t : Nat} (ht : c.t = some t) (s : DState) (x : WBusIn) :
+    ownerWaits c s x = wWait s.tm (tIn c s x) := by
+  cases hr : s.tm.respond
+  · simp [ownerWaits, out, tRes_some c ht, wWait, wWaitCond, wOut, hr, tIn, bus]
+  · simp [ownerWaits, wWait, hr]
+
+theorem runFrom_count_spec {t : Nat} (ht : c.t = some t) (xs : List WBusIn) : ∀ (s : DState) (k : Nat),
+    s.tm.count = t - min t k →
+    ((machine c).runFrom s xs).tm.count = t - min t (WaitTimer.streakFrom k (waits c s xs)) := by
+  induction xs with
+  | nil => intro s k h; simpa [Machine.runFrom, waits, WaitTimer.streakFrom] using h
+  | cons x xs ih =>
+    intro s k h
+    show ((machine c).runFrom (next c s x) xs).tm.count = _
+    have hn : (next c s x).tm.count = t - min t (WaitTimer.streakStep k (ownerWaits c s x)) := by
+      rw [next_tm c ht, ownerWaits_eq c ht]; exact wNext_count_spec t s.tm _ k h
+    rw [ih _ _ hn]
+    simp [waits, WaitTimer.streakFrom]
+
+theorem run_count_spec {t : Nat} (ht : c.t = some t) (xs : List WBusIn) :
+    ((machine c).run xs).tm.count = t - min t (waited c xs) := by
+  have h := runFrom_count_spec c ht xs (dInit c) 0 (by simp [dInit, ht, fInit])
+  simpa [Machine.run, machine, waited, WaitTimer.streak] using h
+
+theorem grant_lt_step (s : DState) (x : WBusIn) (h : s.grant < c.n) : (next c s x).grant < c.n :=
+  RoundRobin.next_lt .ce _ _ h
+
+theorem grant_lt (hn : 0 < c.n) (xs : List WBusIn) : ((machine c).run xs).grant < c.n :=
+  Machine.invariant_runFrom (machine c) (fun s => s.grant < c.n) (fun s x h => grant_lt_step c s x h)
+    xs (machine c).init hn
+
+/-- During RESPOND the grant cannot move (`ce = 0`: a beat is offered or the forced `b.valid` is up). -/
+theorem respond_holds_grant {t : Nat} (ht : c.t = some t) (s : DState) (x : WBusIn)
+    (hr : s.tm.respond = true) (hg : s.grant < c.n) : (next c s x).grant = s.grant := by
+  have hce : ce c s x = false := by
+    simp only [ce, tRes_some c ht, wOut, hr, if_true, tIn]
+    cases (bus s x).awv <;> cases (bus s x).wv <;> simp
+  simp only [next, hce]
+  exact RoundRobin.next_ce_hold _ hg
+
+end SharedW
+
+/-! ### Shared interconnect, read direction -/
+
+namespace SharedR
+variable (c : Cfg)
+
+theorem tRes_some {t : Nat} (ht : c.t = some t) (s : DState) (x : RBusIn) :
+    tRes c s x = rOut c.full c.dw s.tm (tIn c s x) := by simp [tRes, ht]
+
+theorem next_tm {t : Nat} (ht : c.t = some t) (s : DState) (x : RBusIn) :
+    (next c s x).tm = rNext c.full c.dw t s.tm (tIn c s x) := by simp [next, ht]
+
+def ownerWaits (s : DState) (x : RBusIn) : Bool :=
+  !s.tm.respond && ((x.ms s.grant).arv && !((out c s x).toM s.grant).arr)
+
+def waits : DState → List RBusIn → List Bool
+  | _, [] => []
+  | s, x :: xs => ownerWaits c s x :: waits (next c s x) xs
+
+def waited (xs : List RBusIn) : Nat := WaitTimer.streak (waits c (dInit c) xs)
+
+theorem ownerWaits_eq {t : Nat} (ht : c.t = some t) (s : DState) (x : RBusIn) :
+    ownerWaits c s x = rWait s.tm (tIn c s x) := by
+  cases hr : s.tm.respond
+  · simp [ownerWaits, out, tRes_some c ht, rWait, rWaitCond, rOut, hr, tIn, bus]
+  · simp [ownerWaits, rWait, hr]
+
+theorem runFrom_count_spec {t : Nat} (ht : c.t = some t) (xs : List RBusIn) : ∀ (s : DState) (k : Nat),
+    s.tm.count = t - min t k →
+    ((machine c).runFrom s xs).tm.count = t - min t (WaitTimer.streakFrom k (waits c s xs)) := by
+  induction xs with
+  | nil => intro s k h; simpa [Machine.runFrom, waits, WaitTimer.streakFrom] using h
+  | cons x xs ih =>
+    intro s k h
+    show ((machine c).runFrom (next c s x) xs).tm.count = _
+    have hn : (next c s x).tm.count = t - min t (WaitTimer.streakStep k (ownerWaits c s x)) := by
+      rw [next_tm c ht, ownerWaits_eq c ht]; exact rNext_count_spec c.full c.dw t s.tm _ k h
+    rw [ih _ _ hn]
+    simp [waits, WaitTimer.streakFrom]
+
+theorem run_count_spec {t : Nat} (ht : c.t = some t) (xs : List RBusIn) :
+    ((machine c).run xs).tm.count = t - min t (waited c xs) := by
+  have h := runFrom_count_spec c ht xs (dInit c) 0 (by simp [dInit, ht, fInit])
+  simpa [Machine.run, machine, waited, WaitTimer.streak] using h
+
+theorem grant_lt_step (s : DState) (x : RBusIn) (h : s.grant < c.n) : (next c s x).grant < c.n :=
+  RoundRobin.next_lt .ce _ _ h
+
+theorem grant_lt (hn : 0 < c.n) (xs : List RBusIn) : ((machine c).run xs).grant < c.n :=
+  Machine.invariant_runFrom (machine c) (fun s => s.grant < c.n) (fun s x h => grant_lt_step c s x h)
+    xs (machine c).init hn
+
+theorem respond_holds_grant {t : Nat} (ht : c.t = some t) (s : DState) (x : RBusIn)
+    (hr : s.tm.respond = true) (hg : s.grant < c.n) : (next c s x).grant = s.grant := by
+  have hce : ce c s x = false := by
+    simp only [ce, tRes_some c ht, rOut, hr, if_true, tIn]
+    cases (bus s x).arv <;> simp
+  simp only [next, hce]
+  exact RoundRobin.next_ce_hold _ hg
+
+end SharedR
+
 end Litex.Timeout.Axi
